@@ -183,7 +183,7 @@ class RefPeg:
         if k == "Identifier":
             r = self.rules[e.value]
             return self.rule(r, s, tag=e.tag)
-        if k in ("GrammarRule", "Rule", "Any", "SOI", "EOI", "ASCIIRule", "BuiltInRule"):
+        if k in ("GrammarRule", "Rule", "Any", "SOI", "EOI", "ASCIIRule", "BuiltInRule", "UnicodePropertyRule"):
             return self.rule(e, s)
         if k == "Group":
             return self.ex(e.expression, s)
